@@ -8,6 +8,7 @@ import (
 	"regexp"
 	"runtime"
 	"runtime/debug"
+	"strconv"
 	"strings"
 	"sync/atomic"
 	"time"
@@ -318,7 +319,22 @@ func runC10(c *Ctx) {
 		case 0, 1:
 			// encode; the callback types half of the time
 			var cs *c03Case
-			if kind == 0 {
+			if kind == 0 && i%121 == 7 {
+				// a big map with TextMarshaler keys: sorted-key iteration keeps every key text alive in one
+				// buffer while the callbacks (and the collections they trigger) run
+				n := r.Range(1030, 1300)
+				m := make(map[cat.GKey]string, n)
+				for k := 0; k < n; k++ {
+					m[cat.GKey{A: k, B: r.Intn(1000)}] = "v" + strconv.Itoa(k)
+				}
+				if action == 2 || action == 8 {
+					action = 1 // (thousands of callbacks: the cheaper collecting action)
+					atomic.StoreInt32(&c10Action, action)
+				}
+				cs = &c03Case{t: reflect.TypeOf(m), v: reflect.ValueOf(m), how: r.Intn(2)}
+				cs.label = []string{"value", "pointer"}[cs.how]
+				c.Count("big_text_key_maps", 1)
+			} else if kind == 0 {
 				t := cat.Stressful[r.Intn(len(cat.Stressful))]
 				vo := gen.ValOpts{MaxLen: 4, NilChance: 6}
 				cs = &c03Case{t: t, v: r.Value(t, &vo, 0), how: r.Intn(4)}
